@@ -91,7 +91,10 @@ class Out:
 
 
 def run_job(name, run, *, timeout_ms=60000, max_paths=20000, prune=True, prune_timeout_ms=3000,
-            twin=True, watch=(), second=False, feas_timeout_ms=15000):
+            twin=True, watch=(), second=False, feas_timeout_ms=15000, witness=None):
+    """witness: optional (sampler(rng) -> {name: float}, n): concrete points run concolically
+    through the harness; a symbolic path whose decision sequence a concrete point follows
+    (with all preconditions true there) has a reachability witness even if nlsat finds no model."""
     """Explore all paths of `run(C) -> Out`, discharge definedness obligations, lemmas and
     claims per path. Returns a JSON-able dict."""
     t0 = time.time()
@@ -107,13 +110,39 @@ def run_job(name, run, *, timeout_ms=60000, max_paths=20000, prune=True, prune_t
             for C, out in gen:
                 paths.append((C, out, dict(tr.locals)))
         res["functions"] = sorted(tr.funcs)
+        witnessed = set()
+        if witness is not None and paths:
+            import numpy as _np
+
+            from . import concolic
+
+            sampler, nw = witness
+            rng = _np.random.default_rng(12345)
+            for _k in range(nw):
+                if len(witnessed) == len(paths):
+                    break
+                try:
+                    vals = sampler(rng)
+                    C2, _o2 = concolic.run_at(run, dict(vals), check_axioms=False)
+                    if not all(concolic.holds(f, C2.shadow, tol=1e-9) for f in C2.pre):
+                        continue
+                except BaseException as e:  # noqa
+                    if isinstance(e, (KeyboardInterrupt, SystemExit)):
+                        raise
+                    continue
+                for pi, (C, _out, _l) in enumerate(paths):
+                    if pi in witnessed or len(C.decisions) != len(C2.decisions):
+                        continue
+                    if all(a[0].eq(b[0]) and a[1] == b[1] for a, b in zip(C.decisions, C2.decisions)):
+                        witnessed.add(pi)
+            res["witnessed_paths"] = len(witnessed)
         for pi, (C, out, _loc) in enumerate(paths):
             Ctx.current = C
             tag = f"{name}[p{pi}]"
             cons = solve.base_constraints(C)
             # reachability / vacuity twin: the path must be satisfiable
             ts = time.time()
-            feas = solve.path_feasible(C, cons, min(timeout_ms, feas_timeout_ms))
+            feas = "sat" if pi in witnessed else solve.path_feasible(C, cons, min(timeout_ms, feas_timeout_ms))
             C.queries += 1
             C.solver_time += time.time() - ts
             if feas == "unsat":
@@ -125,8 +154,8 @@ def run_job(name, run, *, timeout_ms=60000, max_paths=20000, prune=True, prune_t
             if feas != "sat":
                 res["paths_feas_unknown"] += 1
             if twin:
-                verdicts.append({"obligation": f"{tag}/twin(False must be sat)", "verdict": "sat" if feas == "sat" else "unknown",
-                                 "time_s": round(time.time() - ts, 3), "kind": "twin"})
+                verdicts.append({"obligation": f"{tag}/twin(False must be sat)" + (" [concrete witness through the encoding]" if pi in witnessed else ""),
+                                 "verdict": "sat" if feas == "sat" else "unknown", "time_s": round(time.time() - ts, 3), "kind": "twin"})
             proved = []
             inputs = out.inputs
             # 1. definedness obligations, in program order; proved ones become facts
@@ -244,6 +273,7 @@ def validate(run, sampler, real, n, seed, rel=1e-9, abs_=1e-12, check_claims=Tru
 
     rng = np.random.default_rng(seed)
     ok = 0
+    failures = []
     for i in range(n):
         vals = sampler(rng)
         C, out = concolic.run_at(run, dict(vals))
@@ -273,8 +303,12 @@ def validate(run, sampler, real, n, seed, rel=1e-9, abs_=1e-12, check_claims=Tru
                     raise core.HarnessError(f"validation: {k}: encoding {g!r} vs real {r!r} at {vals}")
         if check_claims:
             # every claim proved by the solver must also hold at the concrete point
+            # (the encoding agrees with the real code at this point, so a false claim here is a
+            #  counterexample candidate: it is handed to the replay like a solver model)
             for cname, cf in out.claims.items():
                 if not concolic.holds(_t(cf), C.shadow, tol=1e-6):
-                    raise core.HarnessError(f"validation: claim '{cname}' is false at the concrete point {vals}")
+                    failures.append({"obligation": f"concrete point/{cname}", "verdict": "sat", "time_s": 0.0, "kind": "claim", "model": dict(vals)})
         ok += 1
+    if failures:
+        return ok, failures
     return ok
